@@ -172,6 +172,11 @@ theorem good_ref (ns : List B) (k : B) (hk : k ∈ ns) : Good ns (refTo k) := by
   simp only [Good, refTo, Tree.All]
   exact ⟨k, hk, rfl⟩
 
+theorem good_objNode {ns : List B} {req : List B} {props : PTree Head} (hr : req.Nodup) (hp : GoodP ns props) :
+    Good ns (objNode req props) := by
+  simp only [Good, objNode, Tree.All, OTree.All, and_true, true_and]
+  exact ⟨hr, hp⟩
+
 theorem good_setNullable {ns : List B} {t : IR} (g : Good ns t) : Good ns (setNullable t) := by
   unfold setNullable
   exact Tree.All.modHead (f := fun h : Head => { h with nullable := true }) (fun _ x => x) t g
@@ -463,11 +468,7 @@ theorem gen_genFields_post (env : Env) :
         rcases schemaName_wellformed name pkg with h | h
         · exact absurd h hn
         · exact h
-      have hsch : Good (names env (a :: seen) (genFields env (a :: seen) [] false (flatten env [a] fs) PTree.nil [] st).2.2)
-          (Tree.node { kind := Kind.object, required := (genFields env (a :: seen) [] false (flatten env [a] fs) PTree.nil [] st).2.1 }
-            OTree.none (genFields env (a :: seen) [] false (flatten env [a] fs) PTree.nil [] st).1 OTree.none) := by
-        simp only [Good, Tree.All, OTree.All, and_true, true_and]
-        exact ⟨hreq, hprops⟩
+      have hsch := good_objNode hreq hprops
       obtain ⟨hi, hg⟩ := close_struct hsn hok hinv2 hsch
       refine ⟨?_, hi, hg⟩
       intro k hk'
@@ -490,8 +491,7 @@ theorem gen_genFields_post (env : Env) :
       have hsn : structName env a = none := by rw [structName_of_lookup hl]; simp [hn]
       refine ⟨hkeys, close_anon hsn hinv2, ?_⟩
       rw [← names_anon hsn]
-      simp only [Good, Tree.All, OTree.All, and_true, true_and]
-      exact ⟨hreq, hprops⟩
+      exact good_objNode hreq hprops
   -- genFields: no field left
   · intro seen opn projected props req st hinv hp hr
     rw [genFields]; exact ⟨fun _ h => h, hinv, hp, hr⟩
